@@ -12,7 +12,7 @@ RULE = ('cases: (prefix) a memoised function with generated payload (nested valu
         'every 64 KiB pickle frame boundary plus a stride) and the call repeated: value equal to the uncached value, wrapped function executed exactly once iff k<|B|, log replay '
         'equal to the original log, entry loadable afterwards; also stale tails (B + garbage) and torn overwrites. (recursion) generated histories on a Recursion subclass (length 1-3, '
         'finite/infinite, raising at an index): consume k items then abandon, run to the end, raise inside, truncate/delete a cache file, run uncached; every run equals the uncached '
-        'sequence and resume() receives exactly the last min(length, index) items. (concurrent) 2-5 processes request one entry: same value, executions never overlap, function ran once. '
+        'sequence and resume() receives exactly the last min(length, index) items. (concurrent) 2-5 processes request one entry: same value, executions never overlap, function ran once; (concurrent_recursion) 2-4 processes, released together by a barrier after import, iterate one Recursion for 2-5 items each: every process gets the uncached sequence and no item is being computed by two processes at once. '
         'non-trivial: crash point strictly inside the pickle (0<k<|B|); histories with >=1 truncation/deletion and >=1 resume; distinct = (payload, k) / case hash')
 ASSUMPTIONS = ['a killed writer leaves a prefix of the bytes of a single pickle.dump (file-content level crash model); OS-level write reordering is not modelled',
                'concurrent interleavings are sampled with harness-injected start offsets, not enumerated']
